@@ -591,7 +591,7 @@ func c18Gen_(g *G) {
 	}
 	if g.Thorough() {
 		lens := []int{0, 8, 32, 100, 1, 16, 40, 64}
-		for i := 0; len(triples) < 30; i++ {
+		for i := 0; len(triples) < 24; i++ {
 			var pw []byte
 			switch i % 5 {
 			case 0:
@@ -641,8 +641,8 @@ func c18Gen_(g *G) {
 	}
 
 	randLens := []int{256, 256, 256, 0, 1, 31, 255, 257, 300, 512}
-	nHonestTg := g.N(12, 40)
-	nHonestOther := g.N(1, 3)
+	nHonestTg := g.N(12, 30)
+	nHonestOther := g.N(1, 2)
 	nLead := g.N(1, 2)
 
 	for ti, t := range triples {
